@@ -69,6 +69,17 @@ _MONTH_FULL = list(_MONTH_ABBREV_TO_FULL.values())
 _LOWERCASE_FULL = list(m.lower() for m in _MONTH_FULL)
 
 
+def _int_if_digit_string(v):
+    """Returns the int value of a digit-string, and any other value unchanged."""
+    if isinstance(v, str) and v.isdigit():
+        try:
+            return int(v)
+        except ValueError:
+            # Digit characters `int` cannot parse (e.g. superscripts), or too many of them
+            return v
+    return v
+
+
 class MonthLongStringMiddleware(_MonthInterpolator):
     """Replace month numbers with full month names.
 
@@ -88,8 +99,7 @@ class MonthLongStringMiddleware(_MonthInterpolator):
     # docstr-coverage: inherited
     def resolve_month_field_val(self, month_field: Field):
         v = month_field.value
-        if isinstance(v, str) and v.isdigit():
-            v = int(v)
+        v = _int_if_digit_string(v)
         if isinstance(v, int):
             if v < 1 or v > 12:
                 return (
@@ -132,8 +142,7 @@ class MonthAbbreviationMiddleware(_MonthInterpolator):
     # docstr-coverage: inherited
     def resolve_month_field_val(self, month_field: Field):
         v = month_field.value
-        if isinstance(v, str) and v.isdigit():
-            v = int(v)
+        v = _int_if_digit_string(v)
         if isinstance(v, int):
             if v < 1 or v > 12:
                 # Nothing we can do here
@@ -180,8 +189,9 @@ class MonthIntMiddleware(_MonthInterpolator):
                     "transformed abbreviated month to int-month",
                 )
 
-        if isinstance(v, str) and v.isdigit():
-            if 1 <= int(v) <= 12:
-                return int(v), "cast month int-string to int"
+        v_int = _int_if_digit_string(v)
+        if isinstance(v, str) and isinstance(v_int, int):
+            if 1 <= v_int <= 12:
+                return v_int, "cast month int-string to int"
 
         return month_field.value, "month field unchanged"
